@@ -316,6 +316,11 @@ func (r *smRunner) monitor(f []string, pre, post *smSnap, err error, ret string)
 		if waiting < 2 && err != sm.ErrInsufficientNumberOfPlayers {
 			r.V("C17", "insufficient_refused", fmt.Sprintf("only %d occupied non-reserved seats but Next() returned %v", waiting, err))
 		}
+		// the refusal is for that case only ("even after waiting players have been let in"): with two or more
+		// sat-in players, playing or waiting, the move is carried out (theorem C17.next_refused_iff)
+		if waiting >= 2 && err != nil {
+			r.V("C17", "next_refused_iff", fmt.Sprintf("%d players have sat in (occupied, non-reserved seats; %d of them playable now) but Next() was refused: %v", waiting, len(P), err))
+		}
 		if err == nil {
 			Q := post.playableSet()
 			desc := fmt.Sprintf("dealer=%d sb=%d bb=%d playable=%v", post.dealer, post.sb, post.bb, Q)
